@@ -25,6 +25,7 @@ type SpecNode struct {
 }
 
 type Clause struct {
+	Local  bool // ensures clause not exported to callers
 	Kind   string // requires | ensures | invariant | assigns | nopanic | noreturn | pure | emits
 	Spawn  bool   // clause applies at `go f()` sites
 	Callee string // site clause: asserted in the caller at every call of this callee
@@ -86,7 +87,7 @@ func NewContractSet() *ContractSet {
 	return &ContractSet{ByKey: map[string]*Contract{}, Preds: map[string]*PredDecl{}, Defs: map[string]*SpecDef{}, GhostMaps: map[string]*GhostMap{}}
 }
 
-var clauseRe = regexp.MustCompile(`^(spawn\s+|onpanic\s+|site\s+\S+\s+)?(requires|ensures|assigns|ghostset|nopanic|noreturn|pure|inline|trusted|maypanic|loop\s+\d+\s+invariant)(\[[A-Za-z0-9_, ]*\])?\s*(.*)$`)
+var clauseRe = regexp.MustCompile(`^(spawn\s+|onpanic\s+|local\s+|site\s+\S+\s+)?(requires|ensures|assigns|ghostset|nopanic|noreturn|pure|inline|trusted|maypanic|loop\s+\d+\s+invariant)(\[[A-Za-z0-9_, ]*\])?\s*(.*)$`)
 var labelRe = regexp.MustCompile(`^([A-Za-z_][A-Za-z0-9_.\-=<>+,]*):\s+(.*)$`)
 var headRe = regexp.MustCompile(`^(func|extern|functype|iface)\s+(.*)$`)
 
@@ -183,7 +184,9 @@ func (cs *ContractSet) parseFile(path string, pkgPath string) {
 				cs.Errors = append(cs.Errors, fmt.Sprintf("%s:%d: clause outside contract", path, lineNo))
 				continue
 			}
-			c := &Clause{Spawn: strings.HasPrefix(m[1], "spawn"), File: path, Line: lineNo}
+			// "local ensures": checked at every return like ensures and may mention the function's locals;
+			// callers do not get it as an assumption
+			c := &Clause{Spawn: strings.HasPrefix(m[1], "spawn"), Local: strings.HasPrefix(m[1], "local"), File: path, Line: lineNo}
 			kind := m[2]
 			if strings.HasPrefix(m[1], "site") {
 				c.Callee = strings.Fields(m[1])[1]
